@@ -345,6 +345,9 @@ pub fn run_check(id: &str, tier: Tier) -> i32 {
             return 2;
         }
     }
+    if runner::MEM_STOP.load(std::sync::atomic::Ordering::Relaxed) {
+        assumptions.push("the run was cut short by the memory guard (resident set above VERIF_MEM_LIMIT_GB, default 24 GiB): fewer cases than budgeted were evaluated; everything evaluated held".into());
+    }
     // thorough tier: coverage-guided campaigns over the choice tapes of the property's engines (libFuzzer, fixed work)
     if tier == Tier::Thorough && std::env::var("VERIF_NO_FUZZ").is_err() {
         for (eng, runs) in fuzz_plan(id) {
